@@ -8,7 +8,7 @@ RULE = ("E1: ModfileSyntax - lexer (with positions) and statement parser of the 
         "each with the specification's verdict, statements, tokens, comment texts and positions; the harness parses with the real syntax "
         "parser (verif export), formats, re-parses and demands that the re-parse equals the SPECIFICATION's reading of the input, and that a "
         "second Format changes nothing; (c) well-formed go.mod/go.work layouts in 5 text variants (LF/CRLF, blank lines, quoted paths) "
-        "x with/without version fixer: directive values identical before and after formatting. E3: byte-level mutations of the "
+        "x with/without version fixer: directive values identical before and after formatting; (d) the quoting rule (ModfileQuote: MustQuote / AutoQuote over strconv.Quote, and parseString over strconv.Unquote): for every string of up to 3/4 characters over 25 classes (5 over 10 in the thorough tier) TLC checks that the text AutoQuote writes is read by the specification's lexer as exactly one token whose value is the string (OneToken, OneTokenDir, NoComment), and the harness compares the real MustQuote / AutoQuote and pushes the string through AddUse / AddReplace + Format + strict parse + Format. E3: byte-level mutations of the "
         "repository's fixtures and token soups, parsed by the specification in ModfileSyntaxTrace. Non-trivial = input accepted by the parser.")
 
 
